@@ -80,11 +80,11 @@ def build_server_bin():
 
 # ---------------------------------------------------------------- TLC
 
-def tlc(module, cfg_path, workers=8, timeout=600, metadir=None, env=None, extra=None, heap="8g", java_opts=""):
+def tlc(module, cfg_path, workers=8, timeout=600, metadir=None, env=None, extra=None, heap="8g", java_opts="", gc="-XX:+UseParallelGC"):
     """Run TLC; returns combined output.  Raises ToolError on timeout."""
     metadir = metadir or os.path.join(BUILD, "tlc", "m%d_%d" % (os.getpid(), int(time.time() * 1000) % 10**9))
     os.makedirs(metadir, exist_ok=True)
-    cmd = ["java", "-XX:+UseParallelGC", f"-Xmx{heap}"] + java_opts.split() + ["-cp", TLA_CP, "tlc2.TLC",
+    cmd = ["java", gc, f"-Xmx{heap}"] + java_opts.split() + ["-cp", TLA_CP, "tlc2.TLC",
            "-workers", str(workers), "-metadir", metadir, "-cleanup", "-noGenerateSpecTE",
            "-config", cfg_path] + (extra or []) + [os.path.join(SPEC, module)]
     e = dict(os.environ)
@@ -200,7 +200,7 @@ def _judge_one(args):
     if n == 0:
         return path, [], 0, ""
     out = tlc(spec, cfg, workers=1, timeout=3600, env={"TRACE": path}, heap=heap,
-              java_opts="-Xss1g -XX:ParallelGCThreads=2")
+              java_opts="-Xss1g -XX:CICompilerCount=2", gc="-XX:+UseSerialGC")
     viols = []
     judged = None
     for line in out.splitlines():
@@ -220,7 +220,7 @@ def judge(trace_files, spec="TraceSeq.tla", cfg=None, jobs=None, heap="3g"):
     """Judge every trace file with TLC (one single-worker JVM per file, several in parallel)."""
     from concurrent.futures import ThreadPoolExecutor
     cfg = cfg or os.path.join(SPEC, spec.replace(".tla", ".cfg"))
-    jobs = jobs or max(1, NCPU - 1)
+    jobs = jobs or max(1, NCPU - 2)
     files = [f for f in trace_files if os.path.exists(f) and os.path.getsize(f) > 0]
     viols, total = [], 0
     with ThreadPoolExecutor(max_workers=jobs) as ex:
@@ -238,7 +238,7 @@ def split_trace(files, outdir, max_events=15000):
         if os.path.exists(f):
             with open(f) as fh:
                 total += sum(1 for _ in fh)
-    max_events = max(2000, min(max_events, total // max(1, NCPU - 1) + 1))
+    max_events = max(2000, min(max_events, total // max(1, NCPU - 2) + 1))
     chunks, cur, cur_n, k = [], None, 0, 0
 
     def new():
